@@ -44,7 +44,8 @@ CHECK = {
                     "computed exactly from the mantissa of x; samples within 1e-6 of a non-zero integer multiple of the "
                     "precision (without being one) are not generated, so the truncation is unambiguous",
                     "average tolerance 4 eps |mean| (one rounded division of exact integers), variance tolerance "
-                    "8 eps sum(x^2)/(W-1) (conditioning of sum(x^2) - n mean^2); neither grows with the history length",
+                    "16 eps sum(x^2)/(W-1) (conditioning of sum(x^2) - n mean^2; first-order worst case of a direct evaluation is "
+                    "4 eps sum(x^2)/(W-1)); neither grows with the history length",
                     "operator[] is only called for k < size(); the average is only read after at least one sample since the last reset; "
                     "setWindowSize only before the first sample; single-threaded (concurrency is C19)",
                     "g++ 12 ASan+UBSan runtime; asserts live (no -DNDEBUG)"],
